@@ -20,6 +20,7 @@ func ruleC04(prog *Program, rep *Report) {
 	ruleSortedEmit(prog, rep)
 	ruleClamp(prog, rep)
 	ruleSeparator(prog, rep)
+	ruleTail(prog, rep, 12, "oj")
 	// a Writer shared through the pool or left half-configured by the previous call does not emit the text of the in-memory call
 	rulePoolPut(prog, rep, "oj.Writer", "pretty.Writer")
 	ruleReturnAlias(prog, rep, "C04", "oj", "pretty")
